@@ -32,11 +32,12 @@ def DState.init : DState := ⟨World.init, []⟩
 def parseTyp? : String → Option Typ
   | "t4" => some .t4 | "t6" => some .t6 | "T4" => some .T4 | "T6" => some .T6
   | "d4" => some .d4 | "d6" => some .d6 | "u4" => some .u4 | "u6" => some .u6
-  | "x4" => some .x4 | "x6" => some .x6 | _ => none
+  | "x4" => some .x4 | "x6" => some .x6 | "y4" => some .y4 | "y6" => some .y6
+  | "z4" => some .z4 | "z6" => some .z6 | _ => none
 
 def typStr : Typ → String
   | .t4 => "t4" | .t6 => "t6" | .T4 => "T4" | .T6 => "T6" | .d4 => "d4" | .d6 => "d6"
-  | .u4 => "u4" | .u6 => "u6" | .x4 => "x4" | .x6 => "x6"
+  | .u4 => "u4" | .u6 => "u6" | .x4 => "x4" | .x6 => "x6" | .y4 => "y4" | .y6 => "y6" | .z4 => "z4" | .z6 => "z6"
 
 def parseInt? (s : String) : Option Int :=
   if s.startsWith "-" then (s.drop 1).toNat?.map fun n => -(Int.ofNat n) else s.toNat?.map Int.ofNat
